@@ -6,7 +6,9 @@
 #ifndef SPEC_POS_H
 #define SPEC_POS_H
 #include "moveenc.h"
-typedef struct SPos { uint32_t board[64]; uint32_t side, rights, ep, half; int32_t ply; } SPos;
+#include "geom.h"
+typedef uint8_t sp_pc;   /* 8-bit piece codes keep the symbolic board reads of the oracle small */
+typedef struct SPos { sp_pc board[64]; uint32_t side, rights, ep, half; int32_t ply; } SPos;
 #define SP_NONE 64u
 static inline uint32_t sp_kind(uint32_t pc) { return pc == 0 ? 0u : (pc - 1u) % 6u + 1u; }
 static inline uint32_t sp_colour(uint32_t pc) { return pc >= 7u ? 1u : 0u; }
@@ -20,21 +22,14 @@ static inline int sp_abs(int x) { return x < 0 ? -x : x; }
 static inline int sp_sgn(int x) { return x > 0 ? 1 : (x < 0 ? -1 : 0); }
 
 /* piece standing on (f, r), or 0 when off the board */
-static inline uint32_t sp_at(const uint32_t *b, int f, int r) { return sp_in(f, r) ? b[r * 8 + f] : 0u; }
+static inline uint32_t sp_at(const sp_pc *b, int f, int r) { return sp_in(f, r) ? b[r * 8 + f] : 0u; }
 
-/* first piece met when walking from sq in direction (df, dr); *where receives its square (64 if none) */
-static inline uint32_t sp_first_on_ray(const uint32_t *b, uint32_t sq, int df, int dr, uint32_t *where)
-{
-  uint32_t found = 0, w = SP_NONE; int f = sp_file(sq), r = sp_rank(sq);
-  for (int i = 1; i < 8; i++) {
-    int ff = f + i * df, rr = r + i * dr;
-    if (found == 0 && sp_in(ff, rr) && b[rr * 8 + ff] != 0) { found = b[rr * 8 + ff]; w = (uint32_t)(rr * 8 + ff); }
-  }
-  *where = w;
-  return found;
-}
-/* is square sq attacked by a piece of colour `by`? (pawns, knights, king, sliders along open rays) */
-static inline _Bool sp_attacked(const uint32_t *b, uint32_t sq, uint32_t by)
+/* occupancy of the board, and the squares holding piece code a or b, as square sets (bit s = square s) */
+static inline uint64_t sp_occ(const sp_pc *b) { uint64_t o = 0; for (uint32_t s = 0; s < 64; s++) if (b[s] != 0) o |= SPEC_BIT(s); return o; }
+static inline uint64_t sp_squares_of(const sp_pc *b, uint32_t a, uint32_t c) { uint64_t o = 0; for (uint32_t s = 0; s < 64; s++) if (b[s] == a || b[s] == c) o |= SPEC_BIT(s); return o; }
+/* is square sq attacked by a piece of colour `by`?  pawns, knights and king by their step patterns; bishops, rooks and
+ * queens along rays walked from sq until the first occupied square (spec/geom.h), which must hold such a piece */
+static inline _Bool sp_attacked(const sp_pc *b, uint32_t sq, uint32_t by)
 {
   int f = sp_file(sq), r = sp_rank(sq);
   int pr = by == 0 ? r - 1 : r + 1;              /* a white pawn attacks upwards, so it stands one rank below */
@@ -43,20 +38,18 @@ static inline _Bool sp_attacked(const uint32_t *b, uint32_t sq, uint32_t by)
   for (int i = 0; i < 8; i++) if (sp_at(b, f + ndf[i], r + ndr[i]) == sp_piece(by, 2)) return 1;
   const int kdf[8] = {1, 1, 1, 0, -1, -1, -1, 0}, kdr[8] = {1, 0, -1, -1, -1, 0, 1, 1};
   for (int i = 0; i < 8; i++) if (sp_at(b, f + kdf[i], r + kdr[i]) == sp_piece(by, 6)) return 1;
-  for (int i = 0; i < 8; i++) {
-    uint32_t w; uint32_t pc = sp_first_on_ray(b, sq, kdf[i], kdr[i], &w);
-    _Bool diag = kdf[i] != 0 && kdr[i] != 0;
-    if (pc == sp_piece(by, 5) || pc == sp_piece(by, diag ? 3 : 4)) return 1;
-  }
+  uint64_t occ = sp_occ(b);
+  if (spec_bishop_walk(sq, occ) & sp_squares_of(b, sp_piece(by, 3), sp_piece(by, 5))) return 1;
+  if (spec_rook_walk(sq, occ) & sp_squares_of(b, sp_piece(by, 4), sp_piece(by, 5))) return 1;
   return 0;
 }
-static inline uint32_t sp_king_sq(const uint32_t *b, uint32_t side)
+static inline uint32_t sp_king_sq(const sp_pc *b, uint32_t side)
 { uint32_t k = SP_NONE; for (uint32_t s = 0; s < 64; s++) if (b[s] == sp_piece(side, 6)) k = s; return k; }
-static inline _Bool sp_in_check(const uint32_t *b, uint32_t side)
+static inline _Bool sp_in_check(const sp_pc *b, uint32_t side)
 { uint32_t k = sp_king_sq(b, side); return k != SP_NONE && sp_attacked(b, k, 1 - side); }
 
 /* squares strictly between two aligned squares are all empty (also true for adjacent squares); 0 if not aligned */
-static inline _Bool sp_path_clear(const uint32_t *b, uint32_t from, uint32_t to)
+static inline _Bool sp_path_clear(const sp_pc *b, uint32_t from, uint32_t to)
 {
   int df = sp_file(to) - sp_file(from), dr = sp_rank(to) - sp_rank(from);
   if (!((df == 0) != (dr == 0) || (df != 0 && sp_abs(df) == sp_abs(dr)))) return 0;
@@ -72,7 +65,7 @@ static inline uint32_t sp_home(uint32_t side) { return side == 0 ? 0u : 56u; }
  * Castling additionally needs the right, king and rook on their home squares and empty squares between them. */
 static inline _Bool sp_pseudo_legal(const SPos *P, uint32_t m)
 {
-  const uint32_t *b = P->board; uint32_t side = P->side;
+  const sp_pc *b = P->board; uint32_t side = P->side;
   if (side > 1 || (m >> 17) != 0) return 0;
   uint32_t c = spec_move_ccode(m);
   if (c == 3) return 0;
@@ -117,7 +110,7 @@ static inline _Bool sp_is_ep(const SPos *P, uint32_t m)
 /* piece standing on sq after the (pseudo-legal) move */
 static inline uint32_t sp_after_piece(const SPos *P, uint32_t m, uint32_t sq)
 {
-  const uint32_t *b = P->board; uint32_t side = P->side, c = spec_move_ccode(m);
+  const sp_pc *b = P->board; uint32_t side = P->side, c = spec_move_ccode(m);
   if (c != 0) {
     uint32_t h = sp_home(side);
     uint32_t kf = h + 4, kt = c == 1 ? h + 6 : h + 2, rf = c == 1 ? h + 7 : h + 0, rt = c == 1 ? h + 5 : h + 3;
@@ -165,8 +158,19 @@ static inline uint32_t sp_captured_kind(const SPos *P, uint32_t m)
 
 static inline void sp_after(const SPos *P, uint32_t m, SPos *Q)
 {
-  for (uint32_t s = 0; s < 64; s++) Q->board[s] = sp_after_piece(P, m, s);
-  Q->side = 1 - P->side; Q->rights = sp_after_rights(P, m); Q->ep = sp_after_ep(P, m); Q->half = sp_after_half(P, m); Q->ply = P->ply + 1;
+  /* same function as sp_after_piece square by square, with the reads at move-dependent squares done once */
+  const sp_pc *b = P->board; uint32_t side = P->side, c = spec_move_ccode(m);
+  uint32_t from = spec_move_from(m), to = spec_move_to(m), promo = spec_move_promo(m);
+  uint32_t mover = b[from]; _Bool ep = c == 0 && sp_kind(mover) == 1 && to == P->ep && P->ep != SP_NONE;
+  uint32_t victim = side == 0 ? to - 8 : to + 8;
+  uint32_t h = sp_home(side), kf = h + 4, kt = c == 1 ? h + 6 : h + 2, rf = c == 1 ? h + 7 : h + 0, rt = c == 1 ? h + 5 : h + 3;
+  for (uint32_t s = 0; s < 64; s++) {
+    uint32_t v = b[s];
+    if (c != 0) { if (s == kt) v = sp_piece(side, 6); else if (s == rt) v = sp_piece(side, 4); else if (s == kf || s == rf) v = 0; }
+    else { if (s == from) v = 0; else if (s == to) v = promo != 0 ? sp_piece(side, promo) : mover; else if (ep && s == victim) v = 0; }
+    Q->board[s] = v;
+  }
+  Q->side = 1 - P->side; Q->rights = sp_after_rights(P, m); Q->ep = sp_after_ep(P, m); Q->half = sp_after_half(P, m); Q->ply = (int32_t)((uint32_t)P->ply + 1u);
 }
 /* legal: pseudo-legal, the mover's king is not attacked afterwards, and for castling the king neither stands in,
  * passes through nor lands on an attacked square */
@@ -181,6 +185,31 @@ static inline _Bool sp_legal(const SPos *P, uint32_t m)
     if (sp_attacked(P->board, h + 4, 1 - P->side)) return 0;
     if (sp_attacked(P->board, c == 1 ? h + 5 : h + 3, 1 - P->side)) return 0;
   }
+  return 1;
+}
+/* state fields are meaningful for the board (the mailbox counterpart of wf_state in poswf.h) */
+static inline _Bool sp_state_ok(const SPos *P)
+{
+  const sp_pc *b = P->board;
+  if (P->side > 1 || P->rights > 15) return 0;
+  for (uint32_t s = 0; s < 64; s++) if (b[s] > 12) return 0;
+  uint32_t r = P->rights;
+  if ((r & 3) && b[4] != 6) return 0;
+  if ((r & 1) && b[7] != 4) return 0;
+  if ((r & 2) && b[0] != 4) return 0;
+  if ((r & 12) && b[60] != 12) return 0;
+  if ((r & 4) && b[63] != 10) return 0;
+  if ((r & 8) && b[56] != 10) return 0;
+  uint32_t e = P->ep;
+  if (e != SP_NONE) {
+    if (e > 64) return 0;
+    if (P->side == 0) { if ((e >> 3) != 5 || b[e] != 0 || b[e - 8] != 7 || b[e + 8] != 0) return 0; }
+    else { if ((e >> 3) != 2 || b[e] != 0 || b[e + 8] != 1 || b[e - 8] != 0) return 0; }
+  }
+  int wk = 0, bk = 0;
+  for (uint32_t s = 0; s < 64; s++) { if (b[s] == 6) wk++; if (b[s] == 12) bk++; }
+  if (wk != 1 || bk != 1) return 0;
+  for (uint32_t s = 0; s < 8; s++) if (sp_kind(b[s]) == 1 || sp_kind(b[56 + s]) == 1) return 0;
   return 1;
 }
 #endif
